@@ -147,18 +147,16 @@ func searchSchedule(sc Scenario, implOut []Obs, budget int) (bool, []string, err
 		}
 		want := obsWindow(implOut, from, horizon)
 		seen := map[string]bool{}
-		for _, pol := range policies {
-			if budget <= 0 {
-				return false, nil
-			}
-			budget--
+		// try feeds one candidate schedule of this instant (the stimulus lines with their policies) to
+		// the model and, if the window's observations agree, goes on with the next instant.
+		try := func(lines []string, name string) (bool, error) {
 			if _, err := d.ask(fmt.Sprintf(`{"restore":%d}`, i)); err != nil {
 				return false, err
 			}
 			var got []Obs
 			bad := false
 			var fp string
-			for _, l := range append(stimLines(gs[i], pol), fmt.Sprintf(`{"end":%d,"fp":true}`, horizon)) {
+			for _, l := range append(lines, fmt.Sprintf(`{"end":%d,"fp":true}`, horizon)) {
 				r, err := d.ask(l)
 				if err != nil {
 					return false, err
@@ -170,17 +168,17 @@ func searchSchedule(sc Scenario, implOut []Obs, budget int) (bool, []string, err
 				fp = r.FP
 			}
 			if bad {
-				continue
+				return false, nil
 			}
 			if ok, _, _ := sameObs(want, got); !ok {
-				continue
+				return false, nil
 			}
 			// same observations and same state as a choice already explored: nothing new below
 			if seen[fp] {
-				continue
+				return false, nil
 			}
 			seen[fp] = true
-			names = append(names, pol.Name)
+			names = append(names, name)
 			if i+1 == len(gs) {
 				return true, nil
 			}
@@ -192,6 +190,34 @@ func searchSchedule(sc Scenario, implOut []Obs, budget int) (bool, []string, err
 				return ok, err
 			}
 			names = names[:len(names)-1]
+			return false, nil
+		}
+		for _, pol := range policies {
+			if budget <= 0 {
+				return false, nil
+			}
+			budget--
+			if ok, err := try(stimLines(gs[i], pol), pol.Name); ok || err != nil {
+				return ok, err
+			}
+		}
+		// The stimuli of one instant land one after the other, and the goroutines woken by the first
+		// ones may have run (under one policy) before the later ones land (and are scheduled under
+		// another): split the instant in two at every position.
+		for j := 1; j < len(gs[i].stims); j++ {
+			a, b := group{t: gs[i].t, stims: gs[i].stims[:j]}, group{t: gs[i].t, stims: gs[i].stims[j:]}
+			for _, pa := range policies {
+				for _, pb := range []Policy{policies[0], policies[1], pa} {
+					if budget <= 0 {
+						return false, nil
+					}
+					budget--
+					lines := append(append(stimLines(a, pa), fmt.Sprintf(`{"end":%d}`, gs[i].t)), stimLines(b, pb)...)
+					if ok, err := try(lines, pa.Name+" | "+pb.Name); ok || err != nil {
+						return ok, err
+					}
+				}
+			}
 		}
 		return false, nil
 	}
